@@ -217,6 +217,7 @@ class SimSocket:
         s = simrt.cur_sched()
         s.yield_point()
         port = addr[1]
+        self.net.log.append(("connect", port, round(s.now, 3)))
         if port in self.net.raw_accept:
             a, b = Endpoint(self.net), Endpoint(self.net)
             a.peer, b.peer = b, a
